@@ -590,9 +590,9 @@ theorem verdict_map {α : Type} (x : Except Panic α) (f : α → Bool) (s : BSt
     verdict (x.map fun v => (f v, s)) = x.map f := by
   cases x <;> rfl
 
-theorem silent_same_view_rule {cfg : Cfg} {tok : Tok} {test : Test} {fuel : Nat} {s s' : BState}
-    (h : SameLook s s') (r : RuleId) :
-    verdict (runRule cfg tok test fuel r s' true) = verdict (runRule cfg tok test fuel r s true) := by
+theorem silent_same_view_rule {cfg cfg' : Cfg} {tok tok' : Tok} {test test' : Test} {fuel fuel' : Nat}
+    {s s' : BState} (h : SameLook s s') (r : RuleId) :
+    verdict (runRule cfg' tok' test' fuel' r s' true) = verdict (runRule cfg tok test fuel r s true) := by
   cases r <;> simp only [runRule]
   · rfl
   · rw [fence_silent_view, fence_silent_view, h.view]
@@ -631,10 +631,11 @@ theorem silent_same_view_rule {cfg : Cfg} {tok : Tok} {test : Test} {fuel : Nat}
   · rfl
   · rfl
 
-theorem runChain_same_view {run : RuleId → BState → Bool → Res}
-    (hpure : ∀ r s b s', run r s true = .ok (b, s') → s' = s) {s s' : BState}
-    (hrun : ∀ r, verdict (run r s' true) = verdict (run r s true)) :
-    ∀ chain : List RuleId, verdict (runChain run chain s' true) = verdict (runChain run chain s true) := by
+theorem runChain_same_view {run run' : RuleId → BState → Bool → Res}
+    (hpure : ∀ r s b s', run r s true = .ok (b, s') → s' = s)
+    (hpure' : ∀ r s b s', run' r s true = .ok (b, s') → s' = s) {s s' : BState}
+    (hrun : ∀ r, verdict (run' r s' true) = verdict (run r s true)) :
+    ∀ chain : List RuleId, verdict (runChain run' chain s' true) = verdict (runChain run chain s true) := by
   intro chain
   induction chain with
   | nil => rfl
@@ -644,7 +645,7 @@ theorem runChain_same_view {run : RuleId → BState → Bool → Res}
     cases h1 : run r s true with
     | error e =>
       rw [h1] at this
-      cases h2 : run r s' true with
+      cases h2 : run' r s' true with
       | error e' => rw [h2] at this; simp [verdict, Except.map] at this ⊢; exact this
       | ok v => rw [h2] at this; simp [verdict, Except.map] at this
     | ok v =>
@@ -652,11 +653,11 @@ theorem runChain_same_view {run : RuleId → BState → Bool → Res}
       have e1 := hpure _ _ _ _ h1
       subst e1
       rw [h1] at this
-      cases h2 : run r s' true with
+      cases h2 : run' r s' true with
       | error e' => rw [h2] at this; simp [verdict, Except.map] at this
       | ok v' =>
         obtain ⟨b', s1'⟩ := v'
-        have e2 := hpure _ _ _ _ h2
+        have e2 := hpure' _ _ _ _ h2
         subst e2
         rw [h2] at this
         simp [verdict, Except.map] at this
@@ -665,16 +666,18 @@ theorem runChain_same_view {run : RuleId → BState → Bool → Res}
         | true => rfl
         | false => exact ih
 
-/-- **`testRules_same_view`**: the look-ahead (`test_rules_at_line`) answers alike on two states that
+/-- **`testRules_same_view`**: the look-ahead (`test_rules_at_line`, over the same chain; the other
+    parameters may differ) answers alike on two states that
     show the same view of the current line — e.g. a line of `D` in a fresh state and the same line
     behind `"> "` inside the block quote (`quote_view`), or indented under a list item (`item_view`). -/
-theorem testRules_same_view (cfg : Cfg) (fuel : Nat) {s s' : BState} (h : SameLook s s') :
-    verdict (testRules cfg fuel s') = verdict (testRules cfg fuel s) := by
+theorem testRules_same_view (cfg cfg' : Cfg) (hchain : cfg'.chain = cfg.chain) (fuel : Nat) {s s' : BState}
+    (h : SameLook s s') : verdict (testRules cfg' fuel s') = verdict (testRules cfg fuel s) := by
   cases fuel with
   | zero => rfl
   | succ f =>
-    simp only [testRules, engine]
-    exact runChain_same_view (fun r s b s' h => silent_pure_rule h) (fun r => silent_same_view_rule h r) _
+    simp only [testRules, engine, hchain]
+    exact runChain_same_view (fun r s b s' h => silent_pure_rule h) (fun r s b s' h => silent_pure_rule h)
+      (fun r => silent_same_view_rule h r) _
 
 /-
 OPEN: the whole-document congruence.
